@@ -588,6 +588,17 @@ def _check_inv(I: Interp, lc: LoopContract, fr: Frame, key: tuple[str, int], pha
         I.prove(f"{key[0]}/loop{key[1]}/inv:{name}/{phase}", f)
 
 
+def assigned_names(st: Any) -> set[str]:
+    """Names (re)bound somewhere in the body of a loop statement (incl. the loop target)."""
+    out: set[str] = set()
+    for n in ast.walk(st):
+        if isinstance(n, ast.Name) and isinstance(n.ctx, (ast.Store, ast.Del)):
+            out.add(n.id)
+        elif isinstance(n, ast.ExceptHandler) and n.name:
+            out.add(n.name)
+    return out
+
+
 def while_loop(I: Interp, st: ast.While, fr: Frame) -> None:
     key = loop_key(fr, st)
     lc = I.ex.loop_contracts.get(key)
@@ -606,6 +617,7 @@ def while_loop(I: Interp, st: ast.While, fr: Frame) -> None:
         raise Unsupported(f"while loop without invariant in {fr.qualname} does not terminate "
                           f"within 512 concrete iterations")
     _check_inv(I, lc, fr, key, "init")
+    I.ghost["__loop_assigned"] = assigned_names(st)
     lc.havoc(I, fr)
     I.ghost["__loop_phase"] = "assume"
     for name, f in lc.invariant(I, fr):
@@ -639,7 +651,9 @@ def invariant_for(I: Interp, st: Any, fr: Frame, it: V, lc: LoopContract,
     n = seq.length()
     kname = f"__k{key[1]}"
     fr.env[kname] = VInt(0)
+    I.ghost["__loop_len"] = n  # number of elements the loop is going to visit
     _check_inv(I, lc, fr, key, "init")
+    I.ghost["__loop_assigned"] = assigned_names(st)
     lc.havoc(I, fr)
     k = I.fresh_int("k")
     fr.env[kname] = k
